@@ -977,6 +977,13 @@ func (e *env) evalJSON(p *pathDef, s *dohSession, in *input) {
 	}
 
 	kind, ref := reference(proj)
+	if kind == refBadPack {
+		// The JSON writer does not pack the message; nothing is documented
+		// for a response that only the wire format cannot carry.
+		e.r.Bucket("skipped:"+p.name, 1)
+
+		return
+	}
 
 	var res tbench.Result
 	for attempt := 0; attempt < 3; attempt++ {
